@@ -259,6 +259,7 @@ impl async_device::radio::Timer for ATimer {
         self.env.push(Ev::TimerReset);
     }
     async fn at(&mut self, millis: u64) {
+        self.env.0.borrow_mut().window_req = Some(millis);
         self.env.push(Ev::TimerAt(millis));
     }
     async fn delay_ms(&mut self, millis: u64) {
@@ -388,9 +389,11 @@ impl<const P: u8, const G: i8, const N: usize> Front for AsyncFront<P, G, N> {
     fn join_otaa(&mut self, dev_eui_wire: [u8; 8], join_eui_wire: [u8; 8], app_key: [u8; 16]) -> Outcome {
         self.env.begin_call();
         self.env.begin_transaction();
+        { let mut e = self.env.0.borrow_mut(); e.joining_tx = true; e.front_is_nb = false; e.window_req = None; }
         let mode = JoinMode::OTAA { deveui: DevEui::from(dev_eui_wire), appeui: AppEui::from(join_eui_wire), appkey: AppKey::from(app_key) };
         let dev = &mut self.dev;
         let r = catch(|| poll_limited(dev.join(&mode), 64));
+        self.env.0.borrow_mut().joining_tx = false;
         self.env.end_transaction();
         let o = match r {
             Err(p) => Outcome::Panic(p),
@@ -640,6 +643,7 @@ impl<const P: u8, const G: i8, const N: usize> NbFront<P, G, N> {
                             self.env.push(Ev::TimeoutReq(t));
                             match phase {
                                 0 | 2 => {
+                                    self.env.0.borrow_mut().window_req = Some(t as u64);
                                     // window start timer: fire it
                                     phase += 1;
                                     last_event_was = 1;
@@ -699,10 +703,12 @@ impl<const P: u8, const G: i8, const N: usize> Front for NbFront<P, G, N> {
     fn join_otaa(&mut self, dev_eui_wire: [u8; 8], join_eui_wire: [u8; 8], app_key: [u8; 16]) -> Outcome {
         self.env.begin_call();
         self.env.begin_transaction();
+        { let mut e = self.env.0.borrow_mut(); e.joining_tx = true; e.front_is_nb = true; e.window_req = None; }
         let r = catch(|| {
             let first = self.dev.join(JoinMode::OTAA { deveui: DevEui::from(dev_eui_wire), appeui: AppEui::from(join_eui_wire), appkey: AppKey::from(app_key) });
             self.drive(first)
         });
+        self.env.0.borrow_mut().joining_tx = false;
         self.env.end_transaction();
         let o = r.unwrap_or_else(Outcome::Panic);
         self.env.push(Ev::Resp(o.text()));
